@@ -1216,6 +1216,10 @@ class Interp:
         if isinstance(v, _DictView):
             return v.items()
         if isinstance(v, SV) and v.kind == "str":
+            # a string whose length is pinned by the path condition is iterated character by character
+            n = self._pinned_length(v)
+            if n is not None:
+                return self.iterate(sym.coerce_to_bstr(self.ctx, v, n, n), env, what)
             raise Unsupported(f"{what} over an unbounded symbolic string")
         if isinstance(v, SList):
             n = mk(v.length)
@@ -1240,6 +1244,21 @@ class Interp:
         if is_concrete(v) and hasattr(v, "__iter__"):
             return list(v)
         raise Unsupported(f"{what} over {type(v).__name__}")
+
+    def _pinned_length(self, v: SV, limit: int = 24):
+        ctx = self.ctx
+        ln = z3.Length(v.t)
+        s2 = z3.Solver()
+        s2.set("timeout", 2000)
+        for a in ctx._slice([ln >= 0]) if len(ctx.pc) > 8 else ctx.pc:
+            s2.add(a)
+        if s2.check() != z3.sat:
+            return None
+        n = s2.model().eval(ln, model_completion=True)
+        if not z3.is_int_value(n) or n.as_long() > limit:
+            return None
+        n = n.as_long()
+        return n if ctx.must(ln == n) else None
 
     # ---- calls
     def e_Call(self, e, env):
@@ -1282,7 +1301,18 @@ class Interp:
                 and len(e.args[0].generators) == 1 and not e.args[0].generators[0].ifs
                 and isinstance(e.args[0].generators[0].target, ast.Name)):
             g = e.args[0].generators[0]
-            itv = self.eval(g.iter, env)
+            deleted = None
+            it_node = g.iter
+            if (isinstance(it_node, ast.Call) and isinstance(it_node.func, ast.Attribute) and it_node.func.attr == "replace"
+                    and len(it_node.args) == 2 and all(isinstance(a_, ast.Constant) for a_ in it_node.args)
+                    and isinstance(it_node.args[0].value, str) and len(it_node.args[0].value) == 1 and it_node.args[1].value == ""):
+                base = self.eval(it_node.func.value, env)
+                if isinstance(mk(base), SV) and mk(base).kind == "str":
+                    # quantifying over s.replace(c, "") = quantifying over the characters of s other than c
+                    return self._char_quantifier(fn.obj is all, e.args[0].elt, g.target.id, mk(base), env, deleted=it_node.args[0].value)
+                itv = self.call(self.getattr(base, "replace"), [it_node.args[0].value, ""], {}, it_node, env)
+            else:
+                itv = self.eval(g.iter, env)
             if isinstance(mk(itv), SV) and mk(itv).kind == "str":
                 return self._char_quantifier(fn.obj is all, e.args[0].elt, g.target.id, mk(itv), env)
             items = self.iterate(itv, env, what="comprehension")
@@ -1310,7 +1340,7 @@ class Interp:
                 kwargs[k.arg] = self.eval(k.value, env)
         return self.call(fn, args, kwargs, e, env)
 
-    def _char_quantifier(self, is_all, elt, var, s: SV, env):
+    def _char_quantifier(self, is_all, elt, var, s: SV, env, deleted=None):
         """all/any(pred(ch) for ch in s) over an unbounded string: pred is evaluated on every ASCII
         character (input domain A-ASCII) and the quantifier becomes a regular-language membership."""
         good = []
@@ -1320,6 +1350,10 @@ class Interp:
             v = mk(self.eval(elt, cenv))
             if not is_concrete(v):
                 raise Unsupported("character predicate depends on symbolic state")
+            if chr(c) == deleted:
+                if is_all:
+                    good.append(chr(c))  # deleted characters are not quantified over
+                continue
             if bool(v):
                 good.append(chr(c))
         self.used_models.add("A-ASCII: per-character predicates over a symbolic string are enumerated over code points 0..127 (ANTLR FileStream decodes as ASCII)")
